@@ -18,7 +18,9 @@ RULE = ("escape: seeded strings over the XML 1.0 Char production (ASCII, each of
 ASSUMPTIONS = ["standard XML parser = lxml/libxml2 (the repository's own dependency)",
                "exact .5 ties may legitimately round either way (nearest second)"]
 
-ENTITY = re.compile(r"&(amp|lt|gt|quot|apos);")
+# the five predefined entities and numeric character references (&#13; / &#x0D;): both are "entities" in the
+# sense of the statement - what must not occur is a special character that the parser would take as markup
+ENTITY = re.compile(r"&(amp|lt|gt|quot|apos|#[0-9]{1,7}|#x[0-9A-Fa-f]{1,6});")
 HMS = re.compile(r"^(\d+):(\d\d):(\d\d) \(Hours, minutes, seconds\)$")
 MS = re.compile(r"^(\d+):(\d\d) \(Minutes, seconds\)$")
 SEC = re.compile(r"^(\d\d) Seconds$")
@@ -35,9 +37,16 @@ def xml_normalised(text, context):
 
 def classify(rec):
     w = rec["witness"]
-    if rec["kind"] == "escaped text is not read back as the original" and \
-            any(ch in w["text"] for ch in "\t\n\r") and \
-            w.get("read_back") == xml_normalised(w["text"], w["context"]):
+    if rec["kind"] != "escaped text is not read back as the original" or not isinstance(w.get("read_back"), str):
+        return None
+    if any(ch in w["text"] for ch in "\t\n\r") and w["read_back"] == xml_normalised(w["text"], w["context"]):
+        return "xml-whitespace-normalisation"
+    # the same mechanism when only some of the three characters are still written literally (a partial
+    # repair that emits &#13; for CR but leaves TAB / LF): the escaped form contains a literal TAB/LF/CR and
+    # original and read-back differ in nothing but which white-space characters stand at those places
+    def canon(t):
+        return re.sub(r"[\t\n\r ]+", " ", t)        # runs, because CR LF may come back as one or two characters
+    if any(ch in w.get("escaped", "") for ch in "\t\n\r") and canon(w["text"]) == canon(w["read_back"]):
         return "xml-whitespace-normalisation"
     return None
 
@@ -200,6 +209,18 @@ def gen_text(rng):
         return "contains TAB/LF/CR", "".join(body)
     if c < 0.63:
         return "empty", ""
+    if c < 0.66:
+        # long texts with hundreds to thousands of special characters (a path's d attribute, a pasted
+        # HTML fragment): anything that escapes "the first N occurrences" or works in bounded chunks
+        n = rng.choice((255, 256, 257, 300, 512, 1000, 1025, 5000))
+        style = rng.randrange(3)
+        if style == 0:
+            body = rng.choice(SPECIALS) * n
+        elif style == 1:
+            body = "".join(rng.choice(SPECIALS) for _ in range(n))
+        else:
+            body = "<i>x</i> " * (n // 8) + '"' * (n % 8)
+        return "long text with hundreds of specials", body
     return "mixed unicode", "".join(gen_char(rng) for _ in range(rng.randint(1, 30)))
 
 
@@ -360,7 +381,7 @@ def run(ctx):
         drive_hms(ctx, value, ms)
     for cls in ("ascii", "single special amp", "single special lt", "single special gt",
                 "single special quot", "single special apos", "pre-escaped / markup-like",
-                "mixed quotes", "contains TAB/LF/CR", "mixed unicode", "empty"):
+                "mixed quotes", "contains TAB/LF/CR", "mixed unicode", "empty", "long text with hundreds of specials"):
         ctx.need("escape:" + cls, 100)
     for cls in ("under 10 s", "around 10 s", "around 60 s", "around 3600 s", "minute boundary",
                 "hour boundary", "integer seconds", "exact half second (tie)", "random float",
